@@ -27,7 +27,9 @@ Decided here are structural clauses that are genuine necessary conditions of it 
            removeArgs shift loop and count update, ArgumentList constructor range, ArgumentList::remove erase
            count and position, parseAndRemove advances iff nothing was consumed.
   R-C18-6  longestBeginningMatch bounds std::mismatch by the shorter length; beginsWith compares the match
-           length with the length of the prefix argument.
+           length with the length of the prefix argument.  A word-at-a-time front loop is accepted when a word is read
+           only while offset + W <= min(sizes), equal words advance by W, and differing words return offset +
+           ctz(w1 ^ w2) / 8 (rounding down; `(ctz + c) / 8` is reported).
   R-C18-7  (also) a string delimiter is read the same way by every search of a tokeniser: as a set of characters
            (find_first_of / find_first_not_of) or as one separator string (find); mixing both is reported.
   R-C18-7  tokenizer loop shape: a token runs from the token start to the found delimiter, the search for the
@@ -63,6 +65,12 @@ bound (pointer walks `cur != end` over [av + 1, av + ac)); a count update that i
 tokeniser that hands its arguments to a worker in the same file (tokenize -> tokenizeFrom(str, start, ...), the scan may
 start at a caller-given offset); cuts written as assign(src, 0, pos) / std::string(src, pos) / std::string(first, last) on
 iterators found by std::find, a delimiter kept in a const array, and the remainder handed on as a returned offset.
+
+A ladder written as a counting loop with a running unit (unit *= 1000, suffix from a constant table indexed by the loop
+index) is unrolled over its constant trip count: the same divisor / threshold / suffix obligations per rung, and the
+bound must not wrap in its integer type (`input < unit * 1000` for the last unit) -- `input / unit < 1000` does not.
+An accessor computed on the temporary returned by another one (dropExt().base()) is decided with the boundary class
+of ext(): the temporary is re-normalised by the constructor.
 
 Helpers: file-local / private helpers are followed with parameters mapped (FileName position helpers are
 summarised into the typestate, a prefix-length index loop stands for std::mismatch, a lookup helper that scans
@@ -416,6 +424,8 @@ class FnX(Normalizer):
             key = self.objkey(obj)
             if name in ('size', 'length') and not args:
                 return Poly.atom(('size', key))
+            if name in ('data', 'c_str') and not args and (s.get('q') or '').startswith('std::basic_string<'):
+                return Poly.atom(('data', key))
             if name in ('begin', 'cbegin') and not args:
                 return Poly.atom(('begin', key))
             if name in ('end', 'cend') and not args:
@@ -445,6 +455,12 @@ class FnX(Normalizer):
                 return Poly.atom((last_name(q),) + tuple(ps))
             if q in ('std::move', 'std::forward') and len(args) == 1:
                 return self.poly(args[0])
+            if q in ('__builtin_ctz', '__builtin_ctzl', '__builtin_ctzll') and len(args) == 1:
+                xo = tu.strip(args[0], casts=True)
+                if xo is not None and xo.get('kind') == 'BinaryOperator' and xo.get('opcode') == '^':
+                    vs = [self.var_of(y)[1]['name'] if self.var_of(y)[0] else None for y in tu.kids(xo)[:2]]
+                    if all(vs):
+                        return Poly.atom(('ctz',) + tuple(sorted(vs)))
             return Poly.atom(('expr', n.get('id')))
         if k in ('CXXConstructExpr', 'CXXTemporaryObjectExpr') and self.is_copy_ctor(n):
             return self.poly([x for x in tu.kids(n) if x.get('kind') != 'CXXDefaultArgExpr'][0])
@@ -1810,6 +1826,188 @@ def pre_resolve(tu, rg):
     return out
 
 
+def unit_loop_ladder(ctx, tu, f, R):
+    """prettyNumber-style ladder written as a counting loop:  unit = u0; for (i = i0; <guards> && i < N; i++, unit *= K)
+    if (<input below the next unit>) { print(input / unit, table[i]); return; }
+    The loop is unrolled over its constant trip count (constants only, no input values); rung k has divisor u0*K^k.
+    Returns the number of instances reported, or None if f has no such loop."""
+    x = FnX(tu, f)
+    g = x.g
+    file, fname = tu.fn_file(f), fn_name(f)
+    fr = LFrame(tu, f)
+    hs = loops_of(x)
+    if len(hs) != 1:
+        return None
+    h = hs[0]
+    body = CountLoop._body_blocks(_Hdr(x, h)) | {h}
+    # the chain of loop conditions (short-circuit &&): all leave to the same block
+    conds = []
+    b = g.blocks[h]
+    exit_blk = None
+    while b.cond is not None and len(b.succ) == 2 and None not in b.succ and (exit_blk is None or b.succ[1] == exit_blk):
+        exit_blk = b.succ[1]
+        if exit_blk in body:
+            break
+        conds.append((b, tu.strip(deciding_cond(tu, b, g), casts=True)))
+        b = g.blocks[b.succ[0]]
+        if b.id not in body:
+            return None
+    if not conds:
+        return None
+    test_blk = b
+    # locals stepped in the loop
+    idx = unit = None
+    for d, v in x.vars.items():
+        if v['param'] or not is_int_ct(v['ct']):
+            continue
+        ins = [df for df in v['defs'] if df[2] and df[2][0] in body]
+        outs = [df for df in v['defs'] if not (df[2] and df[2][0] in body)]
+        if len(ins) != 1 or len(outs) != 1 or outs[0][0] != 'init' or outs[0][1] is None:
+            continue
+        c0 = x.poly_at(outs[0][1], outs[0][2]).as_int()
+        kind, node, pos = ins[0]
+        if c0 is None:
+            continue
+        if kind == 'inc' and node.get('opcode') == '++':
+            idx = (d, v, c0, pos)
+        elif kind == 'compound' and node.get('opcode') == '*=':
+            k = x.poly_at(tu.kids(node)[1], pos).as_int()
+            if k is not None and k > 1:
+                unit = (d, v, c0, k, pos)
+    if idx is None or unit is None:
+        return None
+    IA, UA = ('var', idx[0], idx[1]['name']), ('var', unit[0], unit[1]['name'])
+    N = None
+    lower = None
+    for blk, c in conds:
+        if c is None or c.get('kind') != 'BinaryOperator':
+            return None
+        nf = x.cond_at(c, True, x.pos_of(c))
+        if nf[0] != 'rel' or nf[1].op != '>=':
+            return None
+        lin = nf[1].p.linear_in(IA)
+        if lin is not None and lin[0] == -1 and lin[1].as_int() is not None:
+            N = lin[1].as_int() + 1                      # i <= rest
+            continue
+        l, r = tu.kids(c)[:2]
+        role = fr.role(l) or fr.role(r)
+        cv = fr.const(r) if fr.role(l) else fr.const(l)
+        if role is None or cv is None or c.get('opcode') not in ('>=', '>'):
+            return None
+        lower = cv if c['opcode'] == '>=' else cv + 1
+    if N is None or test_blk.cond is None or len(test_blk.succ) != 2:
+        return None
+    # ---- from here on the loop is taken to be the ladder: every deviation is reported
+    n = 0
+    loc0 = tu.loc(conds[0][1])
+    inst0 = '%s: unit loop' % fname
+    tc = tu.strip(deciding_cond(tu, test_blk, g), casts=True)
+    tnf = x.cond_at(tc, True, x.pos_of(tc))
+    call, pfr, helper = find_print(tu, fr, g.blocks[test_blk.succ[0]])
+    if tnf[0] != 'rel' or tnf[1].op != '>=' or call is None:
+        ctx.undecided(R, inst0, 'cannot read the rung test `%s` / its print' % tu.show(tc), loc0)
+        return 1
+    # the test:  a*unit*M - input - 1 >= 0   (input < unit*M)   or   M - 1 - input/unit >= 0   (input / unit < M)
+    SA = None
+    for a in tnf[1].p.atoms(deep=True):
+        if isinstance(a, tuple) and a[0] == 'var' and a[1] in x.params:
+            SA = a
+    form = None
+    M = None
+    if SA is not None:
+        lin_s = tnf[1].p.linear_in(SA)
+        if lin_s is not None and lin_s[0] == -1:
+            rest = lin_s[1] + 1                              # input < rest
+            lu = rest.linear_in(UA)
+            if lu is not None and lu[1].as_int() == 0 and lu[0] > 0 and lu[0].denominator == 1:
+                form, M = 'product', int(lu[0])
+        if form is None:
+            for a in tnf[1].p.atoms(deep=False):
+                if isinstance(a, tuple) and a[0] == 'div' and len(a) == 3 and a[1] == Poly.atom(SA) and a[2] == Poly.atom(UA):
+                    la = tnf[1].p.linear_in(a)
+                    if la is not None and la[0] == -1 and la[1].as_int() is not None:
+                        form, M = 'quotient', la[1].as_int() + 1     # input / unit < M
+    if form is None:
+        ctx.undecided(R, inst0, 'rung test `%s` is neither `input < unit * M` nor `input / unit < M`' % tu.show(tc), loc0)
+        return 1
+    # the print: input / unit, suffix = table[i]
+    args = tu.kids(call)[1:]
+    fi = [i for i, a in enumerate(args) if (tu.strip(a, casts=True) or {}).get('kind') == 'StringLiteral']
+    fmt = tu.strip(args[fi[0]], casts=True).get('value', '') if fi else ''
+    m = re.match(r'^"%[-+ 0#]*\d*(?:\.\d+)?l?[fFgGeE](%c)"$', fmt)
+    rest_a = args[fi[0] + 1:] if fi else []
+    table = None
+    okprint = False
+    if m and len(rest_a) >= 2:
+        sc = tu.strip(rest_a[0], casts=True)
+        if sc is not None and sc.get('kind') == 'BinaryOperator' and sc.get('opcode') == '/':
+            nu, de = tu.kids(sc)[:2]
+            rn = fr.role(nu)
+            if rn is not None and rn[0] == 'param' and x.var_of(de)[0] == unit[0]:
+                okprint = True
+        su = tu.strip(rest_a[1], casts=True)
+        if su is not None and su.get('kind') == 'ArraySubscriptExpr' and x.var_of(tu.kids(su)[1])[0] == idx[0]:
+            tb = tu.strip(tu.kids(su)[0], casts=True)
+            tv = tu.node(tb.get('referencedDecl', {}).get('id')) if tb is not None and tb.get('kind') == 'DeclRefExpr' else None
+            if tv is not None and tv.get('type', {}).get('qualType', '').startswith('const '):
+                il = [y for y in tu.kids(tv) if y.get('kind') in ('InitListExpr', 'StringLiteral')]
+                if il and il[0].get('kind') == 'InitListExpr':
+                    table = [chr(int(tu.strip(y, casts=True).get('value'))) if (tu.strip(y, casts=True) or {}).get('kind') == 'CharacterLiteral'
+                             else None for y in tu.kids(il[0])]
+                elif il:
+                    table = list(bytes(il[0].get('value', '""')[1:-1], 'utf-8').decode('unicode_escape'))
+    if not okprint or table is None or None in table:
+        ctx.undecided(R, inst0, 'cannot read the print of the rung (`input / unit`, suffix from a constant table indexed by the loop index)', loc0)
+        return 1
+    uct = plain_ct(unit[1]['ct'])
+    limit = 2 ** 64 if uct in ('unsigned long', 'unsigned long long') else 2 ** 32 if uct == 'unsigned int' else \
+        2 ** 63 if uct in ('long', 'long long') else 2 ** 31
+    prev_hi = lower
+    sufs = []
+    for kk in range(idx[2], N):
+        n += 1
+        u = unit[2] * unit[3] ** (kk - idx[2])
+        suffix = table[kk] if 0 <= kk < len(table) else None
+        inst = '%s: rung %d of the unit loop (unit %d)%s' % (fname, kk, u, (" -> '%s'" % suffix) if suffix else '')
+        key0 = '%s|%s|%s|rung-%s' % (R, file, fname, suffix or '?')
+        probs = []
+        if suffix is None:
+            probs.append(('suffix', 'the suffix table has no entry %d' % kk))
+        elif suffix not in SI_EXP:
+            probs.append(('suffix', "'%s' is not an SI prefix" % suffix))
+        elif u >= limit:
+            probs.append(('unit-wraps', 'the unit %d does not fit into `%s`' % (u, uct)))
+        else:
+            sv = 10 ** SI_EXP[suffix]
+            sufs.append(SI_EXP[suffix])
+            if u != sv:
+                probs.append(('divisor', "the value is divided by %d but the suffix '%s' stands for %d" % (u, suffix, sv)))
+            hi = u * M
+            if hi != sv * 1000:
+                probs.append(('threshold', "the rung for '%s' is taken for values below %d, expected below %d" % (suffix, hi, sv * 1000)))
+            if form == 'product' and hi >= limit:
+                probs.append(('threshold-wraps', "the bound `%s` is evaluated in `%s`: for unit = %d the product %d does not fit and wraps to %d, so "
+                              "values from %d upwards fail the test for '%s', leave the loop and are printed without mantissa and suffix"
+                              % (tu.show(tc), uct, u, hi, hi % limit, hi % limit, suffix)))
+            if prev_hi is None or prev_hi != u:
+                probs.append(('lower-bound', "when the rung for '%s' is reached the value is only known to be >= %s, expected >= %d: the mantissa "
+                              'can be below 1' % (suffix, prev_hi, u)))
+            prev_hi = hi
+        if probs:
+            for kind, msg in probs:
+                ctx.violation(R, inst, msg, tu.loc(tc), key='%s-%s' % (key0, kind))
+        else:
+            ctx.ok(R, inst, "values in [%d, %d) print value / %d with '%s'" % (u, u * M, u, suffix), tu.loc(tc))
+    n += 1
+    inst = '%s: ladder order' % fname
+    if sufs != list(range(3, 3 + 3 * len(sufs), 3)):
+        ctx.violation(R, inst, "the units of the loop carry the suffixes %s, expected a gap-free ascent by 10^3 from 'k'"
+                      % [table[kk] for kk in range(idx[2], min(N, len(table)))], tu.fn_loc(f), key='%s|%s|%s|ladder-order' % (R, file, fname))
+    else:
+        ctx.ok(R, inst, 'suffixes %s' % ''.join(table[idx[2]:N]), tu.fn_loc(f))
+    return n
+
+
 def check_ladder(ctx, tu, qname):
     R = 'R-C18-3'
     R10 = 'R-C18-10'
@@ -1821,6 +2019,10 @@ def check_ladder(ctx, tu, qname):
         x = FnX(tu, f)
         g = x.g
         file, fname = tu.fn_file(f), fn_name(f)
+        ul = unit_loop_ladder(ctx, tu, f, R)
+        if ul is not None:
+            n += ul
+            continue
         rungs = []
         und = []
         discover_ladder(tu, LFrame(tu, f), rungs, und)
@@ -2981,6 +3183,129 @@ def prefix_length_call(tu, x, e, params):
     return prefix_length_fn(tu, hf), e, hf
 
 
+def word_loop_prefix(tu, x, f, ps, K, B, MIN, a, call):
+    """longestBeginningMatch that first compares whole machine words and finishes with std::mismatch from the offset
+    `m` reached:  for (; m + W <= min; m += W) { memcpy(&w1, a.data() + m, W); memcpy(&w2, b.data() + m, W);
+                                                 if (w1 != w2) return a.substr(0, m + ctz(w1 ^ w2) / 8); }
+    returns None (not this shape) or (oks, bads, unds)"""
+    g = x.g
+    cand = None
+    for i in (0, 1):
+        ma = (a[0] - B[i]).as_atom()
+        if isinstance(ma, tuple) and ma[0] == 'var' and ma[1] in x.vars and not x.vars[ma[1]]['param']:
+            cand = (i, ma)
+    if cand is None or len(a) != 3:
+        return None
+    xi, ma = cand
+    yi = 1 - xi
+    M = Poly.atom(ma)
+    bad, und = [], []
+    if a[1] != B[xi] + MIN:
+        if (a[1] - B[xi] - MIN).as_int() is not None or a[1] == B[xi] + Poly.atom(('size', K[xi])):
+            bad.append(('mismatch-bound', 'the tail comparison runs up to `%s`, expected begin() + min(sizes)' % a[1].show()))
+        else:
+            und.append('tail comparison does not end at begin() + min(sizes)')
+    if a[2] != B[yi] + M:
+        off = (a[2] - B[yi] - M).as_int()
+        if off is not None:
+            bad.append(('tail-offset', 'the tail comparison starts at offset `%s` in one string and `%s` in the other'
+                        % (M.show(), (a[2] - B[yi]).show())))
+        else:
+            und.append('the second range of the tail comparison does not start at the same offset')
+    hs = loops_of(x)
+    if len(hs) != 1:
+        return None
+    lp = CountLoop(x, hs[0])
+    if not lp.ok or lp.ivar != ma or not lp.ascending_test or lp.step is None or lp.step < 2 or lp.init.as_int() != 0:
+        return None
+    W = lp.step
+    # reads of one iteration stay below min(sizes):  m + W <= min
+    if lp.bound_excl != MIN - W + 1:
+        d_ = (lp.bound_excl - (MIN - W + 1)).as_int()
+        if d_ is not None and d_ > 0:
+            bad.append(('word-bound', 'a word of %d bytes is read while only `%s` characters are known to exist in both strings '
+                        '(loop condition `%s`)' % (W, (lp.bound_excl - 1 + 0).show(), tu.show(lp.cond))))
+        elif d_ is None:
+            und.append('loop condition `%s` does not bound offset + %d by min(sizes)' % (tu.show(lp.cond), W))
+    # the two words
+    words = {}
+    for b, i, n in g.stmts():
+        if n.get('kind') == 'CallExpr' and tu.sd(n).get('q') in ('memcpy', 'std::memcpy') and b.id in lp.body:
+            args = tu.kids(n)[1:]
+            dst = tu.strip(args[0], casts=True)
+            dv = x.var_of(tu.kids(dst)[0])[0] if dst is not None and dst.get('kind') == 'UnaryOperator' and dst.get('opcode') == '&' else None
+            src = x.poly_at(args[1], (b.id, i))
+            cnt = x.poly_at(args[2], (b.id, i)).as_int()
+            which = None
+            for j in (0, 1):
+                if src == Poly.atom(('data', K[j])) + M:
+                    which = j
+            if dv is None or which is None or cnt != W:
+                und.append('cannot read `%s` as copying %d bytes at the current offset of a parameter' % (tu.show(n), W))
+            else:
+                words[dv] = which
+    if sorted(words.values()) != [0, 1]:
+        und.append('expected one word copied from each string at the current offset')
+        return ([], bad, und)
+    for dv in words:
+        ct = plain_ct(x.vars[dv]['ct'])
+        sz = 8 if ct in ('unsigned long', 'unsigned long long') else 4 if ct == 'unsigned int' else None
+        if sz != W:
+            und.append('the word variable `%s` (%s) does not hold %d bytes' % (x.vars[dv]['name'], ct, W))
+    # the branch on w1 != w2
+    diff = None
+    for bid in lp.body:
+        blk = g.blocks[bid]
+        if blk.cond is None or len(blk.succ) != 2:
+            continue
+        c = tu.strip(deciding_cond(tu, blk, g), casts=True)
+        if c is not None and c.get('kind') == 'BinaryOperator' and c.get('opcode') in ('!=', '=='):
+            vs = sorted(x.var_of(y)[0] or '' for y in tu.kids(c)[:2])
+            if vs == sorted(words):
+                diff = (blk, blk.succ[0] if c['opcode'] == '!=' else blk.succ[1], blk.succ[1] if c['opcode'] == '!=' else blk.succ[0])
+    if diff is None:
+        und.append('no comparison of the two words found')
+        return ([], bad, und)
+    blk, differ, same = diff
+    if lp.header in _reach_blocks(g, differ, stop=None) or not lp.once_per_iteration(lp.inc_pos) and False:
+        und.append('the branch for differing words goes on with the loop')
+    rets = [tu.node(e[1]) for e in g.blocks[differ].el if e[0] == 'S' and (tu.node(e[1]) or {}).get('kind') == 'ReturnStmt']
+    if len(rets) != 1:
+        und.append('the branch for differing words does not return directly')
+        return ([], bad, und)
+    e = x.peel(tu.kids(rets[0])[0]) if tu.kids(rets[0]) else None
+    ok_ret = False
+    if e is not None and e.get('kind') == 'CXXMemberCallExpr' and last_name(tu.sd(e).get('q')) == 'substr':
+        s_, obj, args = tu.call_parts(e)
+        real = [y for y in args if y.get('kind') != 'CXXDefaultArgExpr']
+        if x.var_of(obj)[0] in [p['id'] for p in ps] and len(real) == 2 and x.poly_at(real[0], x.pos_of(e)).as_int() == 0:
+            ln = x.poly_at(real[1], x.pos_of(rets[0])) - M
+            la = ln.as_atom()
+            CTZ = Poly.atom(('ctz',) + tuple(sorted(x.vars[w_]['name'] for w_ in words)))
+            if isinstance(la, tuple) and la[0] == 'div' and len(la) == 3 and la[2].as_int() == 8:
+                extra = (la[1] - CTZ).as_int()
+                if extra == 0:
+                    ok_ret = True
+                elif extra is not None and 1 <= extra <= 7:
+                    bad.append(('bit-to-byte-rounds-up', 'the number of equal leading bytes of the differing words is computed as '
+                                '`%s`: the index of the lowest differing bit must be divided by 8 rounding DOWN; with +%d a difference '
+                                'above bit 0 of a byte (e.g. \'a\' vs \'c\') counts the differing character as matched, so the result is one '
+                                'character too long and beginsWith accepts a non-prefix' % (ln.show(), extra)))
+                    ok_ret = True
+            elif isinstance(la, tuple) and la[0] == 'shr' and len(la) == 3 and la[2].as_int() == 3 and la[1] == CTZ:
+                ok_ret = True
+    if not ok_ret:
+        und.append('cannot read the result returned for differing words (`%s`)' % (tu.show(e) if e else '?'))
+    # equal words: straight to the increment
+    if lp.inc_pos[0] not in _reach_blocks(g, same, stop=lp.header):
+        und.append('equal words do not lead to the next word')
+    # nothing else moves the offset
+    if len(x.vars[ma[1]]['defs']) != 2:
+        und.append('the offset `%s` is modified elsewhere' % ma[2])
+    return (['%d-byte words while offset + %d <= min(sizes), first differing byte = ctz(w1 ^ w2) / 8, then std::mismatch from the offset'
+             % (W, W)], bad, und)
+
+
 def check_prefix(ctx, tu):
     R = 'R-C18-6'
     n = 0
@@ -3031,6 +3356,32 @@ def check_prefix(ctx, tu):
         a = [x.poly_at(y, pos) for y in args]
         und, bad = [], []
         xi = 0 if a[0] == B[0] else 1 if a[0] == B[1] else None
+        wl = word_loop_prefix(tu, x, f, ps, K, B, MIN, a, call) if xi is None else None
+        if wl is not None:
+            oks, bad, und = wl
+            # the result string must still start at begin() of the string whose mismatch position ends it
+            rets = [nd for b, i, nd in x.g.stmts() if nd.get('kind') == 'ReturnStmt']
+            last, ks = None, []
+            for r_ in rets:
+                e = x.peel(tu.kids(r_)[0]) if tu.kids(r_) else None
+                k_ = [y for y in tu.kids(e) if y.get('kind') != 'CXXDefaultArgExpr'] if e is not None and e.get('kind') in (
+                    'CXXConstructExpr', 'CXXTemporaryObjectExpr') else []
+                if len(k_) == 2:
+                    last, ks = r_, k_
+            fi = 0 if (a[0] - B[0]).as_atom() is not None and (a[0] - B[0]).as_atom()[0] == 'var' else 1
+            if len(ks) != 2 or x.poly_at(ks[0], x.pos_of(last)) != B[fi]:
+                und.append('the result after the word loop is not built from begin() of the scanned string')
+            ctx.assume('word-at-a-time comparison: the analysed target is little-endian (the lowest set bit of w1 ^ w2 lies in the '
+                       'first differing byte)')
+            if bad:
+                for k_, m_ in bad:
+                    ctx.violation(R, inst, m_, loc, key=key + k_)
+            elif und:
+                for u_ in und:
+                    ctx.undecided(R, inst, u_, loc)
+            else:
+                ctx.ok(R, inst, oks[0], loc)
+            continue
         if xi is None:
             und.append('first range of mismatch does not start at begin() of a parameter (`%s`)' % a[0].show())
         else:
@@ -3436,9 +3787,12 @@ class FileNameTS:
             s, obj, args = tu.call_parts(e)
             if x.objkey(obj) != self.FKEY:
                 # the tail of the last component is the tail of the name
-                if self.base_like(obj, d) and len([y for y in args if y.get('kind') != 'CXXDefaultArgExpr']) == 1 \
-                        and self.ev(args[0], d) == 'D+1':
+                real_ = [y for y in args if y.get('kind') != 'CXXDefaultArgExpr']
+                if self.base_like(obj, d) and len(real_) == 1 and self.ev(args[0], d) == 'D+1':
                     return ('sub', 'D+1', None)
+                # the head of the last component up to a dot found in it:  base.substr(0, dot)  ==  name[L, dot)
+                if self.base_like(obj, d) and len(real_) == 2 and self.ev(real_[0], d) == 'Z' and self.ev(real_[1], d) == 'DG':
+                    return ('sub', 'L', 'D-L')
                 return 'T'
             a = self.ev(args[0], d) if args else 'T'
             if len(args) < 2 or args[1].get('kind') == 'CXXDefaultArgExpr' or self.ev(args[1], d) == 'N':
@@ -3448,6 +3802,28 @@ class FileNameTS:
             ks = tu.kids(e)[1:]
             if len(ks) == 2:
                 return ('cat', self.strval(ks[0], d, depth + 1), self.strval(ks[1], d, depth + 1))
+        if k == 'ConditionalOperator':
+            c, t, fl = tu.kids(e)[:3]
+            tv = self.truth(c, d)
+            if tv is True:
+                return self.strval(t, d, depth + 1)
+            if tv is False:
+                return self.strval(fl, d, depth + 1)
+            a, b = self.strval(t, d, depth + 1), self.strval(fl, d, depth + 1)
+            return a if a == b else 'T'
+        if k == 'CXXMemberCallExpr' and q.startswith(FNAME + '::'):
+            s, obj, args = tu.call_parts(e)
+            outer = last_name(q)
+            if (obj is None or tu.is_this(obj)) and outer == 'base' and not args:
+                return ('sub', 'L', None)          # the last component of this name
+            inner = x.peel(obj) if obj is not None else None
+            dloc = x.var_of(inner)[0] if inner is not None else None
+            if dloc is not None and x.single_init(dloc) is not None:
+                inner = x.peel(x.single_init(dloc))       # a named temporary: const FileName stem = dropExt();
+            if inner is not None and inner.get('kind') == 'CXXMemberCallExpr' and (tu.sd(inner).get('q') or '').startswith(FNAME + '::'):
+                s2, obj2, args2 = tu.call_parts(inner)
+                if obj2 is None or tu.is_this(obj2):
+                    return ('compose', outer, last_name(tu.sd(inner).get('q')))
         return 'T'
 
     # ---- transfer / refine
@@ -3763,7 +4139,8 @@ def search_kinds(tu, ts, f, kinds, depth, seen=None):
         elif k in ('CallExpr', 'CXXMemberCallExpr'):
             hf = tu.callee_fn(n)
             if hf is not None and not hf['dep'] and (not hf.get('rec') or hf.get('rec') == FNAME) and \
-                    is_int_ct(tu.sd(n).get('ct')) and tu.fn_file(hf) == tu.fn_file(f):
+                    (is_int_ct(tu.sd(n).get('ct')) or (hf.get('rec') == FNAME and last_name(hf['q']) in CUT_SPEC)) and \
+                    tu.fn_file(hf) == tu.fn_file(f):
                 has_sep = search_kinds(tu, ts, hf, kinds, depth + 1, seen) or has_sep
     return has_sep
 
@@ -3790,6 +4167,7 @@ def check_filename(ctx, tu):
     n1 = n8 = 0
     searches = {}
     tstates = {}
+    composes = []
     for f in sorted(tu.functions.values(), key=lambda f: f['l']):
         if f.get('rec') != FNAME or f['dep'] or tu.cfg(f) is None or f.get('ctor') or f.get('dtor'):
             continue
@@ -3881,6 +4259,9 @@ def check_filename(ctx, tu):
                        nontrivial=False)
                 continue
             got = canon_str(sv, sstate)
+            if isinstance(got, tuple) and got and got[0] == 'compose':
+                composes.append((f, name, node, got, rinst))
+                continue
             if got in want:
                 ctx.ok(R8, rinst, 'returns %s' % show_str(got), tu.loc(node))
             elif has_T(got):
@@ -3939,6 +4320,23 @@ def check_filename(ctx, tu):
                           key='%s|%s|%s|dot-boundary-%s-vs-%s' % (R1, tu.fn_file(f), fn_name(f), wrong[0][0], want))
         else:
             ctx.ok(R1, inst, 'boundary `dot %s start` like ext()' % ('<' if want == 'lt' else '<='), tu.fn_loc(f), nontrivial=bool(ts.boundaries))
+    # ---- an accessor computed from the result of another cut: X().base() evaluates base() on a FileName that was
+    #      re-normalised by the constructor (trailing separators stripped)
+    for f, name, node, got, rinst in composes:
+        outer, inner = got[1], got[2]
+        file, fname = tu.fn_file(f), fn_name(f)
+        if name == 'name' and outer == 'base' and inner == 'dropExt' and len(rcls) == 1:
+            if 'lt' in rcls:
+                ctx.violation(R8, rinst, 'name() is computed as dropExt().base(): when the extension dot is the first character of the last '
+                              'component ("d/.bashrc", which ext() treats as extension "bashrc") dropExt() yields "d/", the FileName '
+                              'constructor strips that trailing separator, and base() of the result is the parent directory "d" instead '
+                              'of the empty name: name() is no longer taken from the last component and base() != name() + "." + ext()',
+                              tu.loc(node), key='%s|%s|%s|cut-through-renormalised-temporary' % (R8, file, fname))
+            else:
+                ctx.ok(R8, rinst, 'dropExt().base(): the extension dot is never the first character of the last component, so the '
+                       'intermediate name cannot end in a separator', tu.loc(node))
+        else:
+            ctx.undecided(R8, rinst, 'cannot classify %s() of the temporary returned by %s()' % (outer, inner), tu.loc(node))
     return n1, n8
 
 
